@@ -7,6 +7,8 @@
 #include <tao/pegtl/contrib/json.hpp>
 #include <tao/pegtl/contrib/raw_string.hpp>
 
+#include <tao/pegtl/must_if.hpp>
+
 #include "sim.hpp"
 
 namespace sim::io
@@ -62,6 +64,31 @@ namespace sim::io
    struct st_rule : pegtl::seq< pegtl::one< '<' >, pegtl::state< dstate, word >, pegtl::one< '>' > > {};
    struct st_not : pegtl::seq< pegtl::one< '!' >, pegtl::not_at< w_cs< 2 >, pegtl::one< '?' > >, pegtl::opt< w_cs< 2 > > > {};
    struct g_states : pegtl::until< pegtl::eof, pegtl::sor< st_on, st_at, st_off, st_rule, st_not, pegtl::one< ' ' > > > {};
+   // 7: a must_if< Errors >::control layered on the recording control: rules with a custom message raise on ANY local
+   //    failure (mi_raise_*), except the one that opts out per rule (mi_msg_b: message used only under must<>)
+   struct mi_raise_a : pegtl::one< 'a' > {};
+   struct mi_raise_d : pegtl::seq< pegtl::one< 'd' >, pegtl::one< 'e' > > {};
+   struct mi_msg_b : pegtl::one< 'b' > {};
+   struct mi_plain_c : pegtl::one< 'c' > {};
+   struct mi_errors
+   {
+      template< typename Rule >
+      static constexpr const char* message = nullptr;
+      template< typename Rule >
+      static constexpr bool raise_on_failure = ( message< Rule > != nullptr ) && !std::is_same_v< Rule, mi_msg_b >;
+   };
+   template<> inline constexpr const char* mi_errors::message< mi_raise_a > = "msg a";
+   template<> inline constexpr const char* mi_errors::message< mi_raise_d > = "msg d";
+   template<> inline constexpr const char* mi_errors::message< mi_msg_b > = "msg b";
+   template< typename Rule >
+   using mi_control = typename pegtl::must_if< mi_errors, sim_control, false >::template control< Rule >;
+   struct mi_group : pegtl::seq< pegtl::one< '(' >, mi_raise_d, pegtl::one< ')' > > {};
+   struct mi_hash : pegtl::seq< pegtl::one< '#' >, mi_raise_a > {};
+   struct mi_optb : pegtl::seq< pegtl::one< '[' >, pegtl::opt< mi_msg_b >, pegtl::star< mi_plain_c >, pegtl::one< ']' > > {};
+   struct mi_mustb : pegtl::seq< pegtl::one< '{' >, pegtl::must< mi_msg_b >, pegtl::one< '}' > > {};
+   struct mi_mustc : pegtl::seq< pegtl::one< '<' >, pegtl::must< mi_plain_c >, pegtl::one< '>' > > {};
+   struct mi_look : pegtl::seq< pegtl::one< '?' >, pegtl::at< mi_msg_b >, mi_msg_b > {};
+   struct g_mustif : pegtl::until< pegtl::eof, pegtl::sor< mi_group, mi_hash, mi_optb, mi_mustb, mi_mustc, mi_look, pegtl::one< ' ' > > > {};
    // clang-format on
 }  // namespace sim::io
 
